@@ -54,6 +54,7 @@ RULES = {
     'P7e': ('rules_wait', 'no futures root reaches a waiter whose wait() unconditionally panics'),
     'P7f': ('rules_wait', 'every waiter tests the writer count against zero and the awaited tag cell against the sequence number (argument roles)'),
     'P7h': ('rules_wait', 'the wake-up condition accepts a tag equal to OR ahead of the awaited sequence number'),
+    'P7i': ('rules_wait', 'every loop of Wait::wait re-reads the awaited cell on each iteration (zero spin counts included)'),
     'P7g': ('rules_wait', 'the wake-up condition does not mistake a never-written slot (tag bit set) for a published one'),
     'P8': ('rules_wait', 'sender drop: writers-1 (>=Release) then unconditional waiter.notify()'),
     'P9e': ('rules_wait', 'every handle removes its reclamation token on every drop path'),
@@ -100,6 +101,7 @@ RULES = {
     'S3': ('rules_misc', 'wrappers are thin, forward once to the same-named inner method, broadcast/mpmc twins agree, iterators end only on error'),
     # ---- extra
     'P10g': ('rules_extra', 'the stream scan folds with max: the slowest stream bounds the writer'),
+    'P10h': ('rules_extra2', 'add_stream / add_stream_with / into_multi publish and return a new stream; clone / into_single stay on the caller\'s stream'),
     'P11g': ('rules_extra', 'consumer / producer task lists keep their roles in every futures handle construction'),
     'P12e': ('rules_extra', 'update_token stores exactly the current global epoch (Release) whenever the token lags'),
     'P12f': ('rules_extra', 'cycle start bumps the epoch by one and raises the epoch signal; the signal is cleared only after a completed cycle'),
@@ -123,7 +125,7 @@ RULES = {
 # breaking any of them shows up as lost / duplicated / reordered / overwritten / torn / double-dropped values, i.e.
 # under several of C01..C06 and C12 at once, so all of those checks evaluate all of them
 DATAPATH = ['P1a', 'P1b', 'P1c', 'P1d', 'P1e', 'P1f', 'P1g', 'P1h', 'P2a', 'P2b', 'P2e', 'P3a', 'P3b', 'P3c', 'P3e', 'P3f', 'P3g', 'P3t',
-            'P4', 'P4a', 'P4e', 'P5a', 'P5b', 'P5c', 'P5d', 'P9b', 'P10a', 'P10b', 'P10f', 'P10g', 'P15', 'P15m', 'P15w', 'S1', 'W1', 'W2', 'W3', 'W5', 'W8',
+            'P4', 'P4a', 'P4e', 'P5a', 'P5b', 'P5c', 'P5d', 'P9b', 'P10a', 'P10b', 'P10f', 'P10g', 'P10h', 'P9g', 'P15', 'P15m', 'P15w', 'S1', 'W1', 'W2', 'W3', 'W5', 'W8',
             'W11', 'W13', 'P15i', 'O1', 'O2']
 
 # rules of the futures adapters and of parking / waking: a broken one shows up under C13, C14 or C15 (and C11 when the
@@ -138,12 +140,12 @@ PROPS = {
     'C04': DATAPATH + ['W14'],
     'C05': DATAPATH + ['P13c', 'P13e', 'W14'],
     'C06': DATAPATH,
-    'C07': ['P3f', 'P6b', 'W6', 'P2e', 'P8', 'P7a', 'P7b', 'P7f', 'S3', 'O3'],
-    'C08': ['P7a', 'P7b', 'P7f', 'P7h', 'P2d', 'P8', 'P6b', 'P6c', 'P6d'],
-    'C09': ['P1a', 'P1b', 'P1h', 'P3f', 'P6b', 'P9b', 'P9c', 'P9f', 'P9g', 'P10a', 'P10b', 'P10e', 'P11a', 'P11b', 'P11c', 'S1', 'S3', 'W10', 'W13', 'P15i', 'C13map', 'P15', 'P15m', 'P15w', 'P7e', 'P7f'],
-    'C10': ['P10a', 'P10b', 'P10c', 'P10d', 'P10f', 'P10g', 'P15', 'P15m', 'P15w', 'P3t', 'P5a', 'S5', 'W9'],
-    'C11': ['P9a', 'P9b', 'P9c', 'P9d', 'P9f', 'P10b', 'P10d', 'P10e', 'P10f', 'P10g', 'P1b', 'P11e', 'P11g', 'P12d'],
-    'C12': DATAPATH + ['P9g', 'W6', 'W7'],
+    'C07': ['P3f', 'P6b', 'W6', 'P2e', 'P8', 'P7a', 'P7b', 'P7f', 'P7i', 'S3', 'O3'],
+    'C08': ['P7a', 'P7b', 'P7f', 'P7h', 'P7i', 'P2d', 'P8', 'P6b', 'P6c', 'P6d'],
+    'C09': ['P1a', 'P1b', 'P1h', 'P3f', 'P6b', 'P9b', 'P9c', 'P9f', 'P9g', 'P10a', 'P10b', 'P10e', 'P10h', 'P11a', 'P11b', 'P11c', 'S1', 'S3', 'W10', 'W13', 'P15i', 'C13map', 'P15', 'P15m', 'P15w', 'P7e', 'P7f'],
+    'C10': ['P10a', 'P10b', 'P10c', 'P10d', 'P10f', 'P10g', 'P10h', 'P15', 'P15m', 'P15w', 'P3t', 'P5a', 'S5', 'W9'],
+    'C11': ['P9a', 'P9b', 'P9c', 'P9d', 'P9f', 'P10b', 'P10h', 'P10d', 'P10e', 'P10f', 'P10g', 'P1b', 'P11e', 'P11g', 'P12d'],
+    'C12': DATAPATH + ['W6', 'W7'],
     'C13': FUTURES + ['C13map', 'P2c', 'P9c', 'W10'],
     'C14': FUTURES,
     'C15': FUTURES + ['P7a', 'S3'],
